@@ -37,6 +37,9 @@ pub struct CgCtx {
     codegen_state: CgState,
 }
 
+/// Maximum number of states inlined in each other, see `CgCtx::new`.
+const MAX_INLINE_DEPTH: usize = 32;
+
 struct CgState {
     /// Binary search tables generated so far
     search_tables: SearchTableSet,
@@ -51,16 +54,47 @@ impl CgCtx {
         user_error_type: Option<syn::Type>,
         rule_states: Map<String, StateIdx>,
     ) -> CgCtx {
-        let inlined_states: Vec<StateIdx> = dfa
-            .states
+        // A state with one predecessor is inlined in its predecessor. In a long chain of such
+        // states (e.g. the states of a long string literal) every `MAX_INLINE_DEPTH`th state is
+        // not inlined, to bound the nesting depth of the generated code: rustc overflows its stack
+        // when `match` expressions are nested a few hundred levels deep.
+        //
+        // `inline_depth[state]` is the number of states between the state and the closest
+        // non-inlined state in its chain of predecessors. 0 means the state is not inlined.
+        let mut inline_depth: Vec<Option<usize>> = vec![None; dfa.states.len()];
+        for state_idx in 0..dfa.states.len() {
+            // States in the chain of predecessors without a depth yet, closest first
+            let mut chain: Vec<usize> = vec![];
+            let mut current = state_idx;
+            let mut depth = loop {
+                if let Some(depth) = inline_depth[current] {
+                    break depth;
+                }
+                let predecessors = &dfa.states[current].predecessors;
+                if predecessors.len() != 1 || chain.contains(&current) {
+                    inline_depth[current] = Some(0);
+                    break 0;
+                }
+                chain.push(current);
+                current = predecessors.iter().next().unwrap().0;
+            };
+            for state in chain.into_iter().rev() {
+                if inline_depth[state].is_some() {
+                    // Marked as not inlined above, because of a cycle
+                    depth = 0;
+                    continue;
+                }
+                depth = if depth == MAX_INLINE_DEPTH { 0 } else { depth + 1 };
+                inline_depth[state] = Some(depth);
+            }
+        }
+
+        let inlined_states: Vec<StateIdx> = inline_depth
             .iter()
             .enumerate()
-            .filter_map(|(state_idx, state)| {
-                if state.predecessors.len() == 1 {
-                    Some(StateIdx(state_idx))
-                } else {
-                    None
-                }
+            .filter_map(|(state_idx, depth)| match depth {
+                Some(0) | None => None,
+                Some(_) => Some(StateIdx(state_idx)),
             })
             .collect();
 
@@ -86,6 +120,11 @@ impl CgCtx {
         match self.inlined_states.binary_search(&state) {
             Ok(idx) | Err(idx) => state.map(|state_idx| state_idx - idx),
         }
+    }
+
+    /// Whether the code for the state is generated in the code of its (only) predecessor.
+    pub fn is_inlined(&self, state: StateIdx) -> bool {
+        self.inlined_states.binary_search(&state).is_ok()
     }
 
     pub fn n_inlined_states(&self) -> usize {
